@@ -154,6 +154,26 @@ def basis_defect(p, o):
     return None
 
 
+def objlimit_path(cfg):
+    """the configuration whose unlimited solve takes the path of a solve with an objective limit"""
+    c = dict(cfg)
+    c["simplifier"] = 0
+    if c.get("persistentscaling", 1) == 0:
+        c["scaler"] = 0
+    return c
+
+
+def caught_exception(o):
+    """text of an exception the solver caught during this solve (from its own log), or None"""
+    for tok in o.get("log", "").split(","):
+        if tok.startswith("e") and len(tok) > 1 and not DTOK.match(tok):
+            try:
+                return bytes.fromhex(tok[1:]).decode(errors="replace")
+            except ValueError:
+                return "?"
+    return None
+
+
 def cfg_key(cfg):
     return lpgen.cfg_text({k: v for k, v in cfg.items() if k in ("algorithm", "representation", "simplifier")}) or "default"
 
@@ -212,6 +232,14 @@ class Judge:
                 ok = False
                 self.viol("wrong-abort-status:%s:%s" % (fam, st), "%s (%s) stopped with %s instead of %s under %s" % (fam, par, st, expect_abort, cfg),
                           p, cfg, fam, do, [o1, o2])
+        elif st in ("RUNNING", "ERROR") and caught_exception(o1):
+            # not a limit defect: the simplex threw, optimize() caught it and reports the stale solver status (the same happens without
+            # any limit on this path; cf. C01-sum-starter-running).  Specific signature so that it can be recorded.
+            ok = False
+            simp_off = (cfg.get("simplifier", 1) == 0 or fam == "obj")
+            self.viol("status-running:first-solve:starter=%s:simplifier=%s" % (cfg.get("starter", 0), "off" if simp_off else "on"),
+                      "%s (%s): the solver caught <%s> and optimize() returned %s under %s" % (fam, par, caught_exception(o1), st, cfg),
+                      p, cfg, fam, do, [o1, o2], {"exception": caught_exception(o1)})
         elif st in ("UNKNOWN", "RUNNING", "REGULAR", "NOT_INIT", "NO_PROBLEM", "ERROR", "EXCEPTION"):
             ok = False
             self.viol("no-status-under-limit:%s:%s" % (fam, st), "%s (%s) returned status %s (neither the abort status nor a verdict) under %s" % (
@@ -260,6 +288,12 @@ class Judge:
                             fam, par, st, float(lpgen.dy2fr(o2["obj"])) if "obj" in o2 else None,
                             float(lpgen.dy2fr(unl["obj"])) if unl and "obj" in unl else None, float(cl[1]) if cl and cl[0] == "optimal" else None, cfg),
                             p, cfg, fam, do, [o1, o2], {"unlimited": unl})
+            elif st2 in ("RUNNING", "ERROR") and caught_exception(o2):
+                if not (st in ("RUNNING", "ERROR") and caught_exception(o1)):      # otherwise already reported for the first solve
+                    ok = False
+                    self.viol("status-running:re-solve:starter=%s:simplifier=off" % cfg.get("starter", 0),
+                              "after %s (%s) stopped with %s, the re-solve caught <%s> and optimize() returned %s under %s" % (
+                                  fam, par, st, caught_exception(o2), st2, cfg), p, cfg, fam, do, [o1, o2], {"exception": caught_exception(o2), "unlimited": unl})
             elif unl is not None and want in VERDICTS:
                 if st2 in ABORTS or st2 in ("UNKNOWN", "RUNNING", "ERROR", "EXCEPTION", "NO_PROBLEM"):
                     ok = False
@@ -397,8 +431,9 @@ def main():
     for k, p in enumerate(lps):
         for c, cfg in enumerate(cfgs[k]):
             todo_u.append((k, "c%d.u" % c, "DO c%d.u new %s %s ; opt" % (c, TRACE, lpgen.cfg_text(cfg))))
-            # with an objective limit set optimize() never presolves: the reference for that family is the solve without simplifier
-            todo_u.append((k, "c%d.v" % c, "DO c%d.v new %s %s simplifier=0 ; opt" % (c, TRACE, lpgen.cfg_text({a: b for a, b in cfg.items() if a != "simplifier"}))))
+            # with an objective limit set optimize() calls _preprocessAndSolveReal(false): no simplifier, and no scaler either unless the
+            # LP was scaled persistently (_disableSimplifierAndScaler): the reference for that family is the solve on that path
+            todo_u.append((k, "c%d.v" % c, "DO c%d.v new %s %s ; opt" % (c, TRACE, lpgen.cfg_text(objlimit_path(cfg)))))
     U, crashes_u, _ = run_recover(exe, lps, todo_u, "C16-unl", nobs=1)
     for (k, rid, do, crc, got) in crashes_u:
         # a crash of the solve without any limit is not a limit defect, but it must not go unnoticed
